@@ -185,3 +185,11 @@ func leftoverClass(left []world.Leftover) string {
 func sprintf(f string, a ...any) string { return fmt.Sprintf(f, a...) }
 
 func worldCfgMods(mods ...string) world.Config { return world.Config{Modules: mods} }
+
+func firstLine(s string) string {
+	s = strings.TrimSpace(s)
+	if i := strings.IndexByte(s, '\n'); i >= 0 {
+		return s[:i]
+	}
+	return s
+}
